@@ -14,6 +14,7 @@ Wire format of the fluent.syntax AST (prefix notation, space separated tokens; t
 -/
 import CLModel.Proto
 import CLModel.Checks.Fluent
+import CLModel.Checks.FluentExt
 namespace Ops.C08
 open Proto Ftl
 
@@ -217,6 +218,120 @@ def opPlural (toks : Toks) : String :=
     | .error _ => "IndexError"
   | _ => "bad-args"
 
+/-! ### round 4 -/
+
+def showMsg (m : Msg) : String := s!"{showText m.sev} {m.pos} {showText m.text}"
+
+def showRaw : Except RawErr (List Msg) → String
+  | .ok msgs => " | ".intercalate ("ok" :: msgs.map showMsg)
+  | .error .runtime => "RuntimeError"
+  | .error .index => "IndexError"
+
+/-- c08.rawmsg <locale|-> <ref entry> <l10n entry> : FluentChecker.check_message(ref, l10n), unsorted -/
+def opRawMsg (toks : Toks) : String :=
+  match pOptText toks with
+  | some (loc, ts) =>
+    match pEntry ts with
+    | some (ref, ts) =>
+      match pEntry ts with
+      | some (l10n, []) => showRaw (rawWithLocale loc l10n (fun kp => checkMessageRaw kp ref l10n))
+      | _ => "bad-args"
+    | none => "bad-args"
+  | none => "bad-args"
+
+/-- c08.rawterm <locale|-> <l10n entry> : FluentChecker.check_term(l10n) -/
+def opRawTerm (toks : Toks) : String :=
+  match pOptText toks with
+  | some (loc, ts) =>
+    match pEntry ts with
+    | some (l10n, []) => showRaw (rawWithLocale loc l10n (fun kp => checkTermRaw kp l10n))
+    | _ => "bad-args"
+  | none => "bad-args"
+
+/-- c08.equals <entry> <entry> : FluentEntity.equals -/
+def opEquals (toks : Toks) : String :=
+  match pEntry toks with
+  | some (a, ts) =>
+    match pEntry ts with
+    | some (b, []) => if entityEquals a b then "True" else "False"
+    | _ => "bad-args"
+  | none => "bad-args"
+
+def pTexts : Nat → Toks → Option (List Str × Toks)
+  | 0, ts => some ([], ts)
+  | n + 1, ts => do
+    let (t, ts) ← pText ts
+    let (r, ts) ← pTexts n ts
+    pure (t :: r, ts)
+
+def pActions : Nat → Toks → Option (List Action × Toks)
+  | 0, ts => some ([], ts)
+  | n + 1, "setref" :: ts => do
+    let (k, ts) ← pNat ts
+    let (keys, ts) ← pTexts k ts
+    let (r, ts) ← pActions n ts
+    pure (.setRef keys :: r, ts)
+  | n + 1, "case" :: ts => do
+    let (key, ts) ← pText ts
+    let (all, ts) ← pText ts
+    let (ref, ts) ← pEntry ts
+    let (l10n, ts) ← pEntry ts
+    let (r, ts) ← pActions n ts
+    pure (.case key all ref l10n :: r, ts)
+  | _, _ => none
+
+def showCheck : Except Unit (List Out) → String
+  | .ok outs => " | ".intercalate ("ok" :: outs.map showOut)
+  | .error _ => "IndexError"
+
+/-- c08.seq <locale|-> <n> (setref k key* | case key all ref l10n)* : one FluentChecker instance over the calls -/
+def opSeq (toks : Toks) : String :=
+  match pOptText toks with
+  | some (loc, ts) =>
+    match pNat ts with
+    | some (n, ts) =>
+      match pActions n ts with
+      | some (acts, []) =>
+        let (rs, c) := (Checker.new loc).run acts
+        let fin := match c.reference with
+          | none => "None"
+          | some ks => "[" ++ ",".intercalate (ks.map showText) ++ "]"
+        " || ".intercalate (rs.map showCheck ++ ["reference=" ++ fin])
+      | _ => "bad-args"
+    | none => "bad-args"
+  | none => "bad-args"
+
+def showOuts (outs : List Out) : String := " | ".intercalate ("ok" :: outs.map showOut)
+
+/-- c08.maybestyle <ref value> <l10n value> : CSSCheckMixin.maybe_style -/
+def opMaybeStyle (toks : Toks) : String :=
+  match toks with
+  | [a, b] =>
+    match parseText a, parseText b with
+    | some a, some b => showOuts (maybeStyle a b)
+    | _, _ => "bad-args"
+  | _ => "bad-args"
+
+def showMap (d : CssMap) : String :=
+  "{" ++ ",".intercalate (d.map (fun (p, u) => showText p ++ "=" ++ showText (unitStr u))) ++ "}"
+
+/-- c08.styleseq <ref value> <n> <l10n value>* : check_style repeatedly on one ref_map object -/
+def opStyleSeq (toks : Toks) : String :=
+  match pText toks with
+  | some (rv, ts) =>
+    match pNat ts with
+    | some (n, ts) =>
+      match pTexts n ts with
+      | some (vs, []) =>
+        let rm := match (parseCssSpec rv).1 with | some m => m | none => []
+        let (outs, left) := styleSeq rm vs
+        " || ".intercalate (outs.map showOuts) ++ " ## " ++ showMap left
+      | _ => "bad-args"
+    | none => "bad-args"
+  | none => "bad-args"
+
 def ops : List (String × (List String → String)) :=
-  [("ftl.check", opCheck), ("css.parse", opCss), ("ftl.plural", opPlural)]
+  [("ftl.check", opCheck), ("css.parse", opCss), ("ftl.plural", opPlural),
+   ("c08.rawmsg", opRawMsg), ("c08.rawterm", opRawTerm), ("c08.equals", opEquals), ("c08.seq", opSeq),
+   ("c08.maybestyle", opMaybeStyle), ("c08.styleseq", opStyleSeq)]
 end Ops.C08
